@@ -356,23 +356,27 @@ func cmdCoqCases(in string, k int, out string) {
 	sc.Buffer(make([]byte, 1<<20), 1<<26)
 	w := bufio.NewWriter(mustCreate(out))
 	defer w.Flush()
-	w.WriteString("From Coq Require Import List String.\nImport ListNotations.\nFrom Lungo.Model Require Import Run.\nOpen Scope string_scope.\nDefinition cases : list (string * string) := [\n")
-	i := 0
-	for sc.Scan() && i < k {
+	w.WriteString("From Coq Require Import List String.\nImport ListNotations.\nFrom Lungo.Model Require Import Run.\nOpen Scope string_scope.\n")
+	// one definition per case: a single list literal of a megabyte overflows
+	// the stack of Coq's parser; very long string literals do so on their own
+	// (the extracted model still runs every case)
+	i, total := 0, 0
+	var names []string
+	for sc.Scan() && i < k && total < 600000 {
 		parts := strings.SplitN(sc.Text(), "\t", 2)
 		if len(parts) != 2 {
 			continue
 		}
-		if len(parts[0]) > 12000 {
-			continue // Coq's lexer overflows its stack on very long string literals; the extracted model still runs these
+		if len(parts[0]) > 12000 || len(parts[1]) > 12000 {
+			continue
 		}
-		if i > 0 {
-			w.WriteString(";\n")
-		}
-		w.WriteString("(" + coqString(parts[0]) + ", " + coqString(parts[1]) + ")")
+		name := fmt.Sprintf("case_%d", i)
+		w.WriteString("Definition " + name + " : string * string := (" + coqString(parts[0]) + ", " + coqString(parts[1]) + ").\n")
+		names = append(names, name)
+		total += len(parts[0]) + len(parts[1])
 		i++
 	}
-	w.WriteString("].\nDefinition M := Eval vm_compute in mismatches cases.\nPrint M.\n")
+	w.WriteString("Definition cases : list (string * string) := [" + strings.Join(names, "; ") + "].\nDefinition M := Eval vm_compute in mismatches cases.\nPrint M.\n")
 }
 
 func mustCreate(p string) *os.File {
